@@ -454,7 +454,7 @@ func ErrSwap(sc Scope, supp []suppression, min int) func(p *load.Program) *repor
 					r.Add(report.Obligation{Key: key, Func: name, Pos: instrPos(p, ifi), What: what, Status: report.Discharged, By: "stored into a field of the receiver before the test"})
 					continue
 				}
-				esc := walkSwap(p, fn, start, e, al, epath, ei, &how)
+				esc := walkSwap(p, fn, b, start, e, al, epath, ei, &how)
 				if esc == "" {
 					r.Add(report.Obligation{Key: key, Func: name, Pos: instrPos(p, ifi), What: what, Status: report.Discharged, By: how})
 					continue
@@ -544,7 +544,7 @@ func errOrigin(p *load.Program, e ssa.Value, depth int) (string, string) {
 // walkSwap explores forward from the non-nil successor; it returns "" when
 // every path consumes the error or exits with a definitely non-nil error,
 // else a description of the offending exit.
-func walkSwap(p *load.Program, fn *ssa.Function, start *ssa.BasicBlock, e ssa.Value, al map[ssa.Value]bool, epath string, ei int, how *string) string {
+func walkSwap(p *load.Program, fn *ssa.Function, from, start *ssa.BasicBlock, e ssa.Value, al map[ssa.Value]bool, epath string, ei int, how *string) string {
 	seen := map[*ssa.BasicBlock]bool{}
 	work := []*ssa.BasicBlock{start}
 	defBlock := (*ssa.BasicBlock)(nil)
@@ -598,8 +598,30 @@ func walkSwap(p *load.Program, fn *ssa.Function, start *ssa.BasicBlock, e ssa.Va
 		// is known non-nil, so only the non-nil successor is feasible
 		// (if err == nil && … { } …; if err != nil && err != io.EOF { … }).
 		if ifi, ok := b.Instrs[len(b.Instrs)-1].(*ssa.If); ok {
+			// ... or of a phi in this block that, on every edge this walk can arrive by, carries that
+			// value (err := f(); if err == nil && c { err = g() }; if err != nil { ... }).
+			sameHere := func(v ssa.Value) bool {
+				if v == e {
+					return true
+				}
+				ph, ok := v.(*ssa.Phi)
+				if !ok || ph.Block() != b || !al[ph] {
+					return false
+				}
+				n := 0
+				for i, q := range b.Preds {
+					if q != from && !(q == start || ssau.Reaches(start, q)) {
+						continue
+					}
+					n++
+					if ph.Edges[i] != e {
+						return false
+					}
+				}
+				return n > 0
+			}
 			if bo, ok := ifi.Cond.(*ssa.BinOp); ok && (bo.Op == token.EQL || bo.Op == token.NEQ) &&
-				(bo.X == e && ssau.IsNilConst(bo.Y) || bo.Y == e && ssau.IsNilConst(bo.X)) {
+				(sameHere(bo.X) && ssau.IsNilConst(bo.Y) || sameHere(bo.Y) && ssau.IsNilConst(bo.X)) {
 				if bo.Op == token.NEQ {
 					work = append(work, b.Succs[0])
 				} else {
